@@ -57,10 +57,31 @@ func canonModelExprWS(m *Model) string {
 
 // dslCorr queues the parser correspondence op for text and returns the real outcome.
 func dslCorr(c *Ctx, stream, text string) (out string) {
-	op, _, _ := dslOp(text)
+	cleaned := harnessClean(text)
+	tree, _, errs := parseTree(cleaned)
 	out, _, _ = realParse(text)
-	c.D.Add("corr:parser/"+stream, op, out, map[string]any{"dsl": text})
+	c.D.Add("corr:parser/"+stream, L("dsl2model", Q(text), Q(cleaned), tree, canonErrs(errs)), out, map[string]any{"dsl": text})
+	grammarConform(c, stream, text, tree, len(errs))
 	return out
+}
+
+// grammarConform: a parse tree for which ANTLR reported no error must be a derivation by the grammar
+// (OpenFGAParser.g4, translated to Lean on every run): every rule node's children are a word of the
+// rule's body, labels where the body puts them. A tree that is not means the generated Go parser does
+// something the grammar does not say; the input is the replay.
+func grammarConform(c *Ctx, stream, text, tree string, nErrs int) {
+	if nErrs > 0 {
+		return
+	}
+	c.Dist("grammar_conformance_checked")
+	c.D.AddF("grammar:conform/"+stream, L("conform", tree), "(conform true)", map[string]any{"dsl": text}, func(lean string) bool {
+		if strings.HasPrefix(lean, "(conform false") {
+			c.OracleFail("grammar:conform/"+stream, map[string]any{"dsl": text, "rule": lean},
+				"the Go parser accepted this text without a syntax error, but its parse tree is not a derivation by OpenFGAParser.g4 (a rule node whose children the rule's body does not match)", lean)
+			return true
+		}
+		return false
+	})
 }
 
 // dslCorrScoped: as dslCorr, and asks the Lean driver whether the real parse tree meets the hypothesis
@@ -71,6 +92,7 @@ func dslCorrScoped(c *Ctx, stream, text string) {
 	tree, _, errs := parseTree(cleaned)
 	out, _, _ := realParse(text)
 	c.D.Add("corr:parser/"+stream, L("dsl2model", Q(text), Q(cleaned), tree, canonErrs(errs)), out, map[string]any{"dsl": text})
+	grammarConform(c, stream, text, tree, len(errs))
 	kind := "error_free_trees"
 	if len(errs) > 0 {
 		kind = "error_recovered_trees"
